@@ -248,8 +248,9 @@ def run(ctx):
         nsites += 1
         if verdict == 'propagated':
             C.ok('C08-FLOW-propagate', '%s|call:%s|#%d' % (b.short, cs, pos[0]), 'propagated', sample={'fn': b.short, 'calls': cs, 'at': b.where(pos), 'flow': 'propagated'} if nsites % 7 == 0 else None)
-        elif b.short in reviewed:
-            C.ok('C08-FLOW-propagate', '%s|call:%s|reviewed' % (b.short, cs), reviewed[b.short])
+        elif re.sub(r'(::\{[^{}]*\})+$', '', b.short) in reviewed:
+            # (a closure of the reviewed function is the reviewed function)
+            C.ok('C08-FLOW-propagate', '%s|call:%s|reviewed' % (b.short, cs), reviewed[re.sub(r'(::\{[^{}]*\})+$', '', b.short)])
         else:
             C.fail('C08-FLOW-propagate', '%s|call:%s|%s' % (b.short, cs, verdict),
                    'the Result of a function that may carry a recoverable finding is not propagated (%s): strict would continue where lenient continues, or an error is swallowed' % verdict, b.where(pos))
